@@ -18,7 +18,8 @@ pub mod str_vec;
 /// Applies a key-generating function to each element of a vector and yields a vector of
 /// pairs. Each pair consists of a unique key and a vector of all elements of the input
 /// vector which did produce this key by applying the projection function.
-/// The result vector is not sorted.
+/// The groups are returned in the order of the first occurrence of their keys, so that the result
+/// does not depend on the iteration order of the hash map used internally.
 pub(crate) fn group_by<P, T, K>(data: &[T], projection: P) -> Vec<(K, Vec<T>)>
 where
     P: Fn(&T) -> K,
@@ -27,19 +28,24 @@ where
 {
     #[cfg(feature = "verif_hooks")]
     use crate::verif_hooks::OrderMap as HashMap;
-    let mut grouping: HashMap<K, Vec<T>> = HashMap::new();
-    data.iter()
-        .fold(&mut grouping, |acc, t| {
+    // The first member of the value is the index of the first element with this key
+    let mut grouping: HashMap<K, (usize, Vec<T>)> = HashMap::new();
+    let mut groups = data
+        .iter()
+        .enumerate()
+        .fold(&mut grouping, |acc, (i, t)| {
             let key = projection(t);
-            if let Some(vt) = acc.get_mut(&key) {
+            if let Some((_, vt)) = acc.get_mut(&key) {
                 vt.push(t.clone());
             } else {
-                acc.insert(key, vec![t.clone()]);
+                acc.insert(key, (i, vec![t.clone()]));
             }
             acc
         })
         .drain()
-        .collect()
+        .collect::<Vec<(K, (usize, Vec<T>))>>();
+    groups.sort_by_key(|(_, (first_index, _))| *first_index);
+    groups.into_iter().map(|(k, (_, v))| (k, v)).collect()
 }
 
 /// Generates a new unique name avoiding collisions with the names given in the 'exclusions'.
